@@ -36,6 +36,10 @@ def cases(tier, rng):
         e = rng.choice(res) * rng.choice([1, -1, -1])
         c = Fraction(rng.randint(-40, 40), 8)
         f = Fraction(rng.randint(-40, 40), 8)
+        if rng.random() < 0.25:
+            # projected coordinates far from the origin with fine cells: exact in binary64, not in binary32 (round-4 seed)
+            c = Fraction(rng.randint(400000 * 8, 700000 * 8), 8) + Fraction(1, 8)
+            f = Fraction(rng.randint(5000000 * 8, 6000000 * 8), 8) + Fraction(3, 8)
         nr, nc = rng.randint(1, 6), rng.randint(1, 6)
         t = q(a) + q(c) + q(e) + q(f)
         api = rng.choice(["gis", "obj"]) if nr * nc > 1 else "gis"
